@@ -168,13 +168,27 @@ def rule_pairing(ctx, rep, rid='R1'):
               any(callee_is(t, *SOCK_SEND) and not x.blocks[bi]['cleanup'] for bi, t in x.calls())]
     helper_paths = set()
     for x in direct:
-        if x.j.get('reachable') or x.impl_trait is not None or x.def_kind == 'Closure':
+        if x.j.get('reachable') or x.def_kind == 'Closure':
             continue
-        callers = [y for y in cad.all_bodies for _, t in y.calls() if t.get('resolved') == x.path]
+        if x.impl_trait is not None and not x.impl_trait.startswith('cadence::'):
+            continue        # an impl of a std trait (io::Write ..) is an entry point
+        callers = [y for y in cad.all_bodies for _, t in y.calls() if t.get('resolved') == x.path or
+                   (x.impl_trait and strip_generics(t.get('callee_full', '')) == '<Self as %s>::%s' % (x.impl_trait, x.name))]
         if callers:
             helper_paths.add(x.path)
-    entries = [x for x in cad.all_bodies if not x.file.endswith('test.rs') and x.path not in helper_paths and
-               (x in direct or any(t.get('resolved') in helper_paths for _, t in x.calls()))]
+    # entry points: bodies that send themselves, or reach a sending helper once private helpers (incl. default methods of
+    # private traits, devirtualised for the concrete Self) are inlined
+    entries = []
+    for x in cad.all_bodies:
+        if x.file.endswith('test.rs') or x.path in helper_paths or x.def_kind == 'Closure':
+            continue
+        if x in direct or any(t.get('resolved') in helper_paths for _, t in x.calls()):
+            entries.append(x)
+        elif x.impl_self and x.impl_trait is not None and helper_paths and \
+                any(t.get('resolved_local') for _, t in x.calls()):
+            ib_ = inl(cad, x, never=lambda y: y.path == upd[0].path)
+            if any(callee_is(t, *SOCK_SEND) and not ib_.blocks[bi]['cleanup'] for bi, t in ib_.calls()):
+                entries.append(x)
     for b0 in entries:
         b = inl(cad, b0, never=lambda x: x.path == upd[0].path)
         sends = [bi for bi, t in b.calls() if callee_is(t, *SOCK_SEND) and not b.blocks[bi]['cleanup']]
@@ -288,10 +302,14 @@ def rule_classification(ctx, rep, rid='R2'):
     n_ok = field_of(('payload', ('param', 2), 'Ok'), '0', 0)
 
     def check_side(starts, want, side):
-        _, seen = freach(T, starts)
+        Tr, seen = freach(T, starts)
         got = {}
         for bi, (op, fld, amt) in fa.items():
             if bi in seen:
+                # which counter / how much, as seen on this side (a counter picked by the match on the result is a phi
+                # in general and one definite counter once the side is fixed)
+                ctr = norm(Tr.call_term(bi))
+                fld, amt = leaf_field_name(ctr[2][0]), ctr[2][1]
                 got.setdefault(fld, []).append((op, amt, bi))
         bad = []
         for fld, amount_ok in want.items():
